@@ -36,15 +36,20 @@ META = {
         "stack of 0..3 middlewares over subsets of {pre_send, post_send} x sync/async x replacing x kick ok/raising x kicker "
         "created before/after the middlewares were registered: "
         "pre_send in order each seeing its predecessor's message, kick receives the last message, post_send iff kick "
-        "succeeded, failed kick surfaces as SendTaskError. distinct_nontrivial = distinct reference sequences exercised."
+        "succeeded, failed kick surfaces as SendTaskError. Concurrent sends (E1, mc/send_world.py): 2 (thorough: 3) kiq() calls on one "
+        "broker, started at any point of each other's progress, stacks of 1..2 middlewares whose pre_send/post_send are sync or "
+        "suspend on a gate, kick ok/raising/suspending, fresh kicker per send / one long-lived kicker / task.kiq(); all interleavings "
+        "(level 0, and level 1 for the one-middleware stacks); each send's own event sequence must be a prefix of, and finally equal, "
+        "the single-send reference; plain-valued attributes of the broker and of the shared kicker are part of the fingerprint. "
+        "distinct_nontrivial = distinct reference sequences exercised."
     ),
     "assumptions": [
         "hooks are recording TaskiqMiddleware subclasses generated per case; 'overridden' is what the class defines",
     ],
-    "required_counters": ["scenarios", "client_cases", "worker_sequences_checked"],
+    "required_counters": ["scenarios", "client_cases", "worker_sequences_checked", "concurrent_send_scenarios_checked"],
     "bounds": {
-        "quick": {"worker_stack": "size<=2 all; size 3 over 4 hook subsets", "client_stack": "<=3", "concurrent": "2 msgs x 2 mws gated, L0"},
-        "thorough": {"worker_stack": "size<=3 all subsets", "client_stack": "<=3", "concurrent": "2 msgs x 2 mws gated, L0+L1"},
+        "quick": {"worker_stack": "size<=2 all; size 3 over 4 hook subsets", "client_stack": "<=3", "concurrent": "2 msgs x 2 mws gated, L0", "concurrent_sends": "2 sends, stacks<=2, L0 (+L1 for 6 stacks)"},
+        "thorough": {"worker_stack": "size<=3 all subsets", "client_stack": "<=3", "concurrent": "2 msgs x 2 mws gated, L0+L1", "concurrent_sends": "2 sends L0+L1, 3 sends L0, three kicker styles"},
     },
 }
 
@@ -280,7 +285,49 @@ def run_client(cases: List[Tuple[Any, ...]], acc: Acc) -> None:
             acc.sample({"client_case": case, "observed": [list(map(str, e)) for e in log]})
 
 
+# ---------------------------------------------------------------- concurrent sends (E1)
+
+def send_scenarios(tier: str) -> List[Dict[str, Any]]:
+    """2 (thorough: also 3) sends overlapping on one broker: every interleaving of the sends' starts with
+    the suspension points of gated hooks and of the broker's kick()."""
+    out: List[Dict[str, Any]] = []
+    modes = ("sync", "gated")
+    one = [{"pre_send": a, "post_send": b, "replace": r} for a in (None,) + modes for b in (None,) + modes
+           for r in ((False, True) if a else (False,)) if a or b]
+    stacks: List[List[Dict[str, Any]]] = [[m] for m in one]
+    two = [m for m in one if "gated" in (m["pre_send"], m["post_send"])]
+    stacks += [[a, b] for a in two for b in ({"pre_send": "sync", "post_send": "sync", "replace": True},
+                                              {"pre_send": "gated", "post_send": None, "replace": True})]
+    kicks = [("ok", "ok"), ("gated", "ok"), ("ok", "gated-raise"), ("gated-raise", "gated")]
+    for st in stacks:
+        for ks in kicks:
+            for kicker in ("fresh", "shared", "task"):
+                if tier == "quick" and kicker != "fresh" and (len(st) > 1 or ks != ("gated", "ok")):
+                    continue
+                if not ks[0].startswith("gated") and not any("gated" in (m["pre_send"], m["post_send"]) for m in st):
+                    continue  # the first send never suspends: nothing can overlap it
+                out.append({"mws": st, "sends": [{"kick": x} for x in ks], "kicker": kicker, "level": 0})
+    lvl1 = stacks[:6] if tier == "quick" else stacks
+    for st in lvl1:
+        out.append({"mws": st, "sends": [{"kick": "gated"}, {"kick": "ok"}], "kicker": "fresh", "level": 1})
+    if tier == "thorough":
+        for st in stacks:
+            out.append({"mws": st, "sends": [{"kick": "gated"}, {"kick": "ok"}, {"kick": "gated-raise"}], "kicker": "fresh", "level": 0})
+    return out
+
+
+def _per_send(sc: Dict[str, Any], res: Any, acc: Acc) -> None:
+    if res.maxima.get("checked", 0):
+        acc.count("concurrent_send_scenarios_checked")
+    if res.maxima.get("max_overlap", 0) < 2:
+        acc.cap(f"concurrent-send scenario never had two sends in flight: {sc}")
+
+
 def shards(tier: str, seed: int) -> List[Any]:
+    return _shards(tier, seed) + [("sends", ss[i : i + 12]) for ss in [send_scenarios(tier)] for i in range(0, len(ss), 12)]
+
+
+def _shards(tier: str, seed: int) -> List[Any]:
     scs = worker_scenarios(tier)
     if tier == "thorough":
         mark_stateless(scs, 6, 12)
@@ -303,6 +350,10 @@ def run_shard(shard: Any) -> Dict[str, Any]:
     kind, payload = shard
     if kind == "worker":
         return run_scenarios("C10", payload, C10World, per_scenario=_per).as_dict()
+    if kind == "sends":
+        from mc.send_world import SendWorld
+
+        return run_scenarios("C10", payload, SendWorld, per_scenario=_per_send).as_dict()
     acc = Acc()
     cc = client_cases()
     run_client([cc[i] for i in payload], acc)
@@ -320,4 +371,8 @@ def replay(obj: Dict[str, Any]) -> int:
         for k, v in acc.violations.items():
             print(k, v["message"])
         return 1 if acc.violations else 0
+    if "sends" in obj.get("scenario", {}):
+        from mc.send_world import SendWorld
+
+        return _replay(obj, SendWorld)
     return _replay(obj, C10World)
